@@ -215,6 +215,28 @@ def toHTTP (lr : LReq) : Option HttpReq :=
         | none => none
         | some b => if b.isEmpty then none else some b }
 
+/-! ### The configured log level and the middleware that depends on it -/
+
+/-- `log.level`: the level of the logger the services are created with (`logging.NewLogger`); the `logger`
+    middleware / interceptor puts it into the context of every request, where `zerolog.Ctx` finds it -/
+inductive LogLevel where
+  | trace | debug | info | warn | error | disabled
+deriving Repr, DecidableEq
+
+/-- `drainBody` of `net/http/httputil` (called by `DumpRequest(req, true)`): the body is read *to its end* into a
+    buffer — there is no bound on its length — and closed; the caller gets the bytes (for the dump) and a new reader
+    over the very same bytes, which is put back into the request. `http.NoBody` (`none`) is left alone. -/
+def drainBody : Option Bytes → Bytes × Option Bytes
+  | none => ([], none)
+  | some b => (b, some b)
+
+/-- the `dump` middleware (`internal/handler/middleware/http/dump`), part of the chains of the decision and of the
+    proxy service (the Envoy gRPC service has no such stage): at level `trace` the request is dumped into the log —
+    with its body, which `DumpRequest` drains and restores — and handed on; at every other level the middleware is a
+    no-op. What it hands to the next handler is the request it was given: same bytes, whatever their number. -/
+def dumpMiddleware (level : LogLevel) (r : HttpReq) : HttpReq :=
+  if level = .trace then { r with body := (drainBody r.body).2 } else r
+
 /-- `envoy.service.auth.v3.AttributeContext.HttpRequest` -/
 structure CheckReq where
   method  : Bytes
@@ -628,6 +650,12 @@ structure Cfg where
   defaultPipe : Pipe
   D          : Decoder
   respond    : Respond := {}
+  /-- `log.level`. Only the `dump` middleware of the HTTP based services (`dumpMiddleware`) looks at it; the pipeline
+      code consults the logger too (`conditionalSubjectHandler.Execute` dumps the subject at trace level, the rule
+      executor and the access log write lines at debug / info), but only to write log lines: no other function of the
+      model reads this field — that *is* the model of the code's behaviour, and the correspondence check varies the
+      level to validate it -/
+  logLevel   : LogLevel := .disabled
 
 def Cfg.pipeOf (cfg : Cfg) (key : String × String) : Pipe :=
   ((cfg.pipes.find? fun kv => kv.1 == key).map (·.2)).getD { authz := [], fins := [] }
@@ -695,6 +723,7 @@ structure Outcome where
   upHeaders : List (Bytes × Bytes)     -- header name ↦ value handed to the upstream side
   upCookies : List (Bytes × Bytes)
   upSees    : List (Bytes × Bytes)     -- the headers the upstream application is shown (a Go map)
+  upBody    : Bytes                    -- the payload the upstream application receives
 
 /-- The headers the upstream application is shown: the header lines of the client, a header handed over by the
     pipeline *replacing* the lines of that name. This is `proxyReq.Out.Header.Set` on the clone of the incoming
@@ -709,10 +738,13 @@ def okStatus (R : Respond) (ep : EP) : Nat := if ep = .decision then orDefault R
 
 /-- `Finalize` of the three request contexts. The decision and the proxy service hand over the first value of
     each header (`uh.Get(k)`), the Envoy service all values joined by a comma; the proxy service needs an upstream,
-    which the default rule does not have. -/
-def finalize (R : Respond) (client : List (Bytes × Bytes)) (ep : EP) (r : Ran) : Outcome :=
+    which the default rule does not have. The payload of an allowed request reaches the upstream application as the
+    entry point holds it: the proxy service forwards the body of the request it was handed by its middleware chain
+    (`httputil.ReverseProxy`), the API gateway in front of the decision service and the Envoy proxy forward the body
+    they received themselves. -/
+def finalize (R : Respond) (client : List (Bytes × Bytes)) (payload : Bytes) (ep : EP) (r : Ran) : Outcome :=
   let refused (d : Dec) : Outcome :=
-    { dec := d, status := R.code d, seen := r.seen, upHeaders := [], upCookies := [], upSees := [] }
+    { dec := d, status := R.code d, seen := r.seen, upHeaders := [], upCookies := [], upSees := [], upBody := [] }
   match r.dec with
   | .ok =>
     if ep = .proxy && r.isDefault then refused .internal
@@ -720,7 +752,7 @@ def finalize (R : Respond) (client : List (Bytes × Bytes)) (ep : EP) (r : Ran) 
       let handed := r.ctx.ups.headers.map fun kv =>
         (kv.1, if ep = .envoy then join comma kv.2 else kv.2.head?.getD [])
       { dec := .ok, status := okStatus R ep, seen := r.seen, upHeaders := handed, upCookies := r.ctx.ups.cookies,
-        upSees := overrideHeaders client handed }
+        upSees := overrideHeaders client handed, upBody := payload }
   | d => refused d
 
 /-- the request context an entry point creates for the logical request, with its view functions;
@@ -730,19 +762,26 @@ structure Entry where
   funcs      : Funcs
   headersMap : List (Bytes × Bytes)     -- `Request.Headers()`
   client     : List (Bytes × Bytes)     -- the header lines of the client as the entry point holds them
+  payload    : Bytes                    -- the bytes of the request body as the entry point holds them
 
-def mkCtx (I : Impl) (D : Decoder) (packAsBytes : Bool) (ep : EP) (lr : LReq) : Option Entry :=
+/-- The request context of an entry point whose services run with log level `level`. The HTTP based services build it
+    from the request their middleware chain hands on (`dumpMiddleware`); the Envoy proxy keeps the body of the request
+    it asks about and forwards that. -/
+def mkCtx (I : Impl) (D : Decoder) (level : LogLevel) (packAsBytes : Bool) (ep : EP) (lr : LReq) : Option Entry :=
   match ep with
   | .envoy =>
     let c := toCheck packAsBytes lr
     some { ctx := { caches := I.cachesView, fresh := envoyObj I c }, funcs := envoyFuncs I D c,
-           headersMap := envoyHeaders c, client := envoyHeaders c }
-  | _ => (toHTTP lr).map fun r =>
+           headersMap := envoyHeaders c, client := envoyHeaders c, payload := lr.body.getD [] }
+  | _ => (toHTTP lr).map fun r0 =>
+    let r := dumpMiddleware level r0
     { ctx := { caches := true, fresh := httpObj r }, funcs := httpFuncs D r, headersMap := httpHeadersMap r,
-      client := (stripUntrusted r.header).map fun kv => (canonKey kv.1, join comma kv.2) }
+      client := (stripUntrusted r.header).map fun kv => (canonKey kv.1, join comma kv.2),
+      payload := r.body.getD [] }
 
 /-- one logical request through one entry point -/
 def serve (I : Impl) (cfg : Cfg) (packAsBytes : Bool) (ep : EP) (lr : LReq) : Option Outcome :=
-  (mkCtx I cfg.D packAsBytes ep lr).map fun e => finalize cfg.respond e.client ep (execute cfg e.funcs e.ctx)
+  (mkCtx I cfg.D cfg.logLevel packAsBytes ep lr).map fun e =>
+    finalize cfg.respond e.client e.payload ep (execute cfg e.funcs e.ctx)
 
 end Heimdall.EntryView
